@@ -75,7 +75,42 @@ var c01VoteKey = func() []byte {
 }()
 
 func c01Gen(t *rapid.T) c01Case {
-	c := c01Case{Family: rapid.SampledFrom([]string{"balanced", "balanced", "balanced", "unbalanced", "mutated", "mutated", "coinbase"}).Draw(t, "family")}
+	c := c01Case{Family: rapid.SampledFrom([]string{"balanced", "balanced", "balanced", "unbalanced", "mutated", "mutated", "coinbase", "wrap", "wrap"}).Draw(t, "family")}
+	if c.Family == "wrap" {
+		// totals that exceed 2^63 or 2^64 only in sum: several same-asset inputs whose exact total
+		// differs from what 64-bit wrap-around arithmetic gives, outputs matching the wrapped total
+		asset := rapid.IntRange(0, 3).Draw(t, "wasset")
+		c.Ins = append(c.Ins, c01In{Kind: "spend", Asset: 0, Amount: rapid.Uint64Range(1<<30, 1<<40).Draw(t, "wbtm")})
+		n := rapid.IntRange(2, 4).Draw(t, "wn")
+		var wrapped uint64
+		for i := 0; i < n; i++ {
+			a := rapid.SampledFrom([]uint64{1, 5, 1 << 62, 1<<63 - 1, 1 << 63, 1<<63 + 5, 1<<64 - 3, 1<<64 - 1}).Draw(t, "wa")
+			if rapid.Bool().Draw(t, "wjit") {
+				a -= uint64(rapid.IntRange(0, 3).Draw(t, "wj"))
+			}
+			kind := "spend"
+			if asset != 0 && rapid.IntRange(0, 3).Draw(t, "wiss") == 0 {
+				kind = "issue"
+			}
+			c.Ins = append(c.Ins, c01In{Kind: kind, Asset: asset, Amount: a})
+			wrapped += a
+		}
+		if asset == 0 {
+			wrapped += c.Ins[0].Amount
+			fee := uint64(1 << 28)
+			if wrapped > fee {
+				wrapped -= fee
+			}
+		}
+		if wrapped == 0 {
+			wrapped = 2
+		}
+		c.Outs = append(c.Outs, c01Out{Kind: "original", Asset: asset, Amount: wrapped})
+		if asset != 0 {
+			c.Outs = append(c.Outs, c01Out{Kind: "original", Asset: 0, Amount: c.Ins[0].Amount - 1<<28})
+		}
+		return c
+	}
 	if c.Family == "coinbase" {
 		c.Ins = []c01In{{Kind: "coinbase"}}
 		n := rapid.IntRange(1, 4).Draw(t, "nout")
@@ -225,7 +260,10 @@ func c01Build(c c01Case) (*types.Tx, error) {
 	}
 	raw, err := d.MarshalText()
 	if err != nil {
-		return nil, err // e.g. amounts the encoder refuses (> 2^63-1): not a well-formed transaction
+		// amounts above 2^63-1 cannot be serialised, but a transaction built in memory (as the
+		// wallet's builder does before it validates) can carry them: validate the constructed form
+		d.SerializedSize = 400
+		return types.NewTx(*d), nil
 	}
 	tx := &types.Tx{}
 	if err := tx.UnmarshalText(raw); err != nil {
@@ -248,8 +286,11 @@ func c01Exec(c c01Case, x *pbt.Ctx) error {
 	}
 	tx, err := c01Build(c)
 	if err != nil {
-		x.Class("not-encodable")
+		x.Class("not-buildable")
 		return nil
+	}
+	if tx.SerializedSize == 400 {
+		x.Class("constructed-only(amount>2^63-1)")
 	}
 	block := &bc.Block{BlockHeader: &bc.BlockHeader{Version: 1, Height: 7}}
 	if c.Family == "coinbase" {
